@@ -124,7 +124,7 @@ def guard(res, label, fn, *args):
     unchanged library never does) the results gathered so far are kept and the failure is recorded as a broken correspondence"""
     try:
         fn(*args)
-    except Exception as e:  # noqa
+    except (Exception, SystemExit) as e:  # noqa  (argparse leaves through SystemExit when it refuses a command line)
         if type(e).__name__ == "InfraError":
             raise
         import traceback
